@@ -90,6 +90,59 @@ def run_fp(T, v0, tol, max_iter, method):
     return 0, vl, Tc.n, warned, rk
 
 
+# generic games (payoffs k/997) found offline (seed search over 400 random 3/4-player games) on which polym_lcp_solver back-tracks and the finishing pair
+# flips basis membership during the later stage: all starting pure profiles of each are run in every tier
+POLYM_CORPUS = json.loads('[{"nums":[2,4,3,4],"den":997,"pm":{"0,1":[[2492,-920,2066,-2676],[3329,2297,-4974,-745]],"0,2":[[2243,4468,173],[4584,1196,-231]],"0,3":[[4242,2459,903,-3802],[-3740,3197,3210,-3078]],"1,0":[[-1775,2579],[-3005,436],[1445,-4166],[1307,930]],"1,2":[[3748,-4208,-945],[-4781,2772,-1984],[2380,-1928,-3647],[-2251,-1337,-1570]],"1,3":[[-1944,-1169,-1547,1514],[3857,25,-4627,825],[3575,4764,1731,4119],[2764,-4707,-2015,-1765]],"2,0":[[-1630,4780],[-1690,4354],[4945,-1987]],"2,1":[[273,-1784,1457,90],[-1371,604,2696,1751],[-3801,1905,3097,183]],"2,3":[[1790,-4160,2088,550],[-3917,491,-3927,4454],[2015,-576,4057,3415]],"3,0":[[1184,3617],[1561,2134],[43,-344],[-4627,4476]],"3,1":[[696,4557,657,2298],[4216,-4817,-4292,-4907],[3566,3134,1431,-1371],[4566,-835,4276,2621]],"3,2":[[-1164,3297,4369],[2087,-331,-385],[2064,-1579,-4887],[4153,3663,-2055]]}},{"nums":[3,2,2,4],"den":997,"pm":{"0,1":[[807,-1231],[369,-2672],[-2929,898]],"0,2":[[-2496,1493],[-2556,2566],[-148,4301]],"0,3":[[-2018,-1127,400,-1083],[932,440,-4301,924],[1096,-1954,426,2679]],"1,0":[[-783,4965,-3337],[2521,3552,-2207]],"1,2":[[1077,1762],[3919,3652]],"1,3":[[-4177,2646,1545,-3716],[-4632,646,-532,815]],"2,0":[[-551,286,-2887],[-3940,2548,-3566]],"2,1":[[3509,-3533],[927,2553]],"2,3":[[793,-2379,3684,34],[-3986,-3354,-672,2407]],"3,0":[[939,3437,1750],[-530,376,-2497],[3120,-2397,3611],[3498,-85,-3154]],"3,1":[[1471,3389],[-2806,225],[1564,-1210],[-3560,1551]],"3,2":[[-3876,1028],[-2782,-4543],[-592,-2058],[246,2396]]}},{"nums":[3,2,3,4],"den":997,"pm":{"0,1":[[3162,912],[4344,32],[-2860,3800]],"0,2":[[-4512,-1462,-1514],[3262,-421,-1944],[-424,-3856,-3035]],"0,3":[[-359,2058,2454,333],[2620,-4600,-764,-1531],[-4181,108,2155,-4592]],"1,0":[[2884,2525,-1737],[-568,-3644,4543]],"1,2":[[-2694,991,-3072],[-1165,956,-654]],"1,3":[[3755,134,-4261,-2500],[4370,4308,-956,-359]],"2,0":[[4919,3007,-1674],[-4371,1780,-4961],[-4564,-1817,1955]],"2,1":[[-3302,-2802],[-2545,-2174],[-2274,-4886]],"2,3":[[-1020,1734,-972,-4729],[-447,1258,-2457,-2713],[3527,-2569,3925,3916]],"3,0":[[-3887,-1607,1549],[-4767,-4015,-3347],[809,-2075,2822],[-2759,3276,1490]],"3,1":[[-4187,4248],[-4508,3691],[624,-2529],[-4058,-434]],"3,2":[[1134,-1648,3624],[-978,18,1839],[1854,1763,-3096],[-1928,-1248,-1574]]}},{"nums":[3,4,3,3],"den":997,"pm":{"0,1":[[15,-3107,2551,4255],[-184,-733,-263,1254],[2832,2976,-2979,-4747]],"0,2":[[3519,-1090,-4436],[-1104,2475,4504],[969,4558,4971]],"0,3":[[928,-1200,1560],[-1481,-1835,1297],[3688,-1096,-3971]],"1,0":[[156,4506,3158],[4873,-1360,3166],[-163,-1648,-2231],[-1005,4340,785]],"1,2":[[4517,-2581,-323],[-1203,-38,-5],[3695,-747,4891],[-1690,-860,2108]],"1,3":[[-1581,-655,-2749],[-4484,-78,1761],[2001,3827,1171],[1542,-403,-1255]],"2,0":[[-2743,3756,4104],[3863,2613,3119],[3347,-1523,-4404]],"2,1":[[2581,-4779,-3221,-2038],[-3128,-2412,-4206,126],[3143,-2606,4459,-3197]],"2,3":[[-4330,4721,2395],[-4114,3467,-3378],[-926,4013,4673]],"3,0":[[-3472,-4570,-500],[4011,-1571,-4525],[-9,-4630,3614]],"3,1":[[1981,635,-1058,3878],[2060,-3157,4943,1972],[1514,-1141,3503,-2855]],"3,2":[[2429,-3752,-2424],[413,3429,-1956],[4406,-904,-324]]}},{"nums":[4,4,2,4],"den":997,"pm":{"0,1":[[4674,1493,3349,-3995],[-4909,-2168,-3314,26],[-1473,-1562,72,4104],[2321,-2313,-4533,-987]],"0,2":[[-2073,1102],[-1759,-1134],[-1577,3378],[-252,-2994]],"0,3":[[-3291,-4044,2329,-1890],[2761,4447,-3358,3659],[-3421,-2171,-1930,-516],[-666,-3697,4141,3755]],"1,0":[[-3817,4432,-456,1432],[2265,-3162,-4873,91],[4577,1681,-3196,-2572],[-4824,-4152,1095,-2093]],"1,2":[[-2374,2274],[-424,491],[-4253,3843],[2407,1038]],"1,3":[[3709,-1936,2507,3536],[-1550,1625,832,-1679],[1324,4701,-4335,2899],[-518,-4674,3593,-4834]],"2,0":[[-1916,-1222,700,-2387],[1857,-2781,-2601,644]],"2,1":[[2979,-1932,-76,-2696],[865,-1061,768,4897]],"2,3":[[1776,-1531,-1673,4153],[502,3315,4223,3917]],"3,0":[[-1133,-2641,-2215,2850],[3676,-1707,-2950,-4089],[-1978,1586,-3670,2687],[-3671,4492,2644,1400]],"3,1":[[-2764,4387,486,-2190],[-4115,-4359,-216,575],[2130,1079,-2111,-4046],[3444,-3301,1767,-4491]],"3,2":[[-2467,-640],[4369,-2804],[-667,-2447],[-4189,-829]]}}]')
+
+
+def _pl_pivoting(*a):
+    from quantecon.optimize.pivoting import _pivoting
+    return _pivoting(*a)
+
+
+def _pl_lex(*a):
+    from quantecon.optimize.pivoting import _lex_min_ratio_test
+    return _lex_min_ratio_test(*a)
+
+
+def polym_trace(pm, nums, start, max_iter=2000):
+    """re-run of the outer loop with quantecon's own kernels; returns (backtracks, flips, converged, num_iter)"""
+    N = len(nums); total = sum(nums); n = total + N
+    mx = max(np.max(M) for M in pm.values()); pcm = mx + 2.0
+    M = np.zeros((n, n))
+    off = [sum(nums[:p]) for p in range(N + 1)]
+    for p in range(N):
+        for p2 in range(N):
+            if p2 != p: M[off[p]:off[p+1], off[p2]:off[p2+1]] = pcm - pm[(p, p2)]
+        M[off[p]:off[p+1], total + p] = -1.0
+        M[total + p, off[p]:off[p+1]] = 1.0
+    q = np.hstack([np.zeros(total), -np.ones(N)])
+    tab = np.hstack([np.eye(n), -M, q.reshape(-1, 1)]); basis = np.arange(n)
+    for p in range(N):
+        row = total + p; col = n + off[p] + start[p]
+        _pl_pivoting(tab, col, row); basis[row] = col
+    argmins = np.empty(n + N, dtype=np.int_)
+    it = 0; p = 0; retro = False; conv = True; back = 0; flips = 0; left = {}
+    while p < N and conv:
+        fv = total + n + p; fx = n + off[p] + start[p]; fy = fx - n
+        if not retro: pc = fv
+        else:
+            pc = fx if fy in basis else fy
+            if p in left and left[p] != pc: flips += 1
+        retro = False
+        while True:
+            if it == max_iter: conv = False; break
+            it += 1
+            _, r = _pl_lex(tab, pc, 0, argmins)
+            _pl_pivoting(tab, pc, r)
+            lv = basis[r]; basis[r] = pc
+            if lv == fx or lv == fy: left[p] = lv; p += 1; break
+            elif lv == fv: p -= 1; retro = True; back += 1; break
+            elif lv < n: pc = lv + n
+            else: pc = lv - n
+    return back, flips, conv, it
+
+
 def run(ctx):
     import quantecon as qe
     from quantecon.game_theory import NormalFormGame, Player, mclennan_tourky, PolymatrixGame, polym_lcp_solver
@@ -402,28 +455,42 @@ def run(ctx):
         ctx.mismatch("C15.Model.is_epsilon_nash/best_response_selection (Q instance) vs mclennan_tourky._is_epsilon_nash/_best_response_selection", inp, out)
 
     # ================================================================ polym_lcp_solver
-    pl_cases, pl_meta = [], []
-    for _ in range(500 if thorough else 40):
-        N = rng.choice([2, 3, 3, 4])
-        nums = [rng.randrange(2, 4) for _ in range(N)]
-        pm = {(i, j): np.array([[float(rng.randrange(-50, 51)) / rng.choice([1.0, 4.0, 7.0]) for _c in range(nums[j])] for _r in range(nums[i])])
+    pl_all = []
+    games = [(g["nums"], {tuple(int(t) for t in k.split(",")): np.array(v, dtype=float) / float(g["den"]) for k, v in g["pm"].items()}, "corpus")
+             for g in POLYM_CORPUS]
+    for _ in range(300 if thorough else 22):
+        N = rng.choice([2, 3, 3, 4, 4, 4])
+        nums = [rng.randrange(2, 5) for _ in range(N)]
+        # generic payoffs (k/997, k in +-5000): integer games with tied entries are degenerate and the solver may cycle on them
+        pm = {(i, j): np.array([[rng.randrange(-5000, 5001) / 997.0 for _c in range(nums[j])] for _r in range(nums[i])])
               for i in range(N) for j in range(N) if i != j}
+        games.append((nums, pm, "random"))
+    PL_MAX = 2000
+    for nums, pm, origin in games:
+        N = len(nums)
         pg = PolymatrixGame(pm)
         for start in itertools.product(*[range(n) for n in nums]):
-            NE, res = polym_lcp_solver(pg, starting_player_actions=list(start), max_iter=20000, full_output=True)
-            if len(pl_cases) < (1500 if thorough else 150):
-                pms = "[" + "; ".join("[" + "; ".join(("(@nil (list float))" if i == j else flist2(pm[(i, j)].tolist())) for j in range(N)) + "]"
-                                      for i in range(N)) + "]"
-                pl_cases.append(tup(natlist(nums), natlist(start), pms, zl(20000),
-                                    tup(zl(0), flist([float(v) for a_ in NE for v in a_]), blit(bool(res.converged)), zl(int(res.num_iter)))))
-                pl_meta.append(({"solver": "polym_lcp_solver", "nums_actions": nums, "polymatrix": {"%d,%d" % k: v.tolist() for k, v in pm.items()},
-                                 "start": list(start)}, ([x.tolist() for x in NE], bool(res.converged), int(res.num_iter))))
-            inp = {"solver": "polym_lcp_solver", "nums_actions": nums, "polymatrix": {"%d,%d" % k: v.tolist() for k, v in pm.items()}, "start": list(start)}
+            back, flips, tconv, tit = polym_trace(pm, nums, start, PL_MAX)   # same kernels, instrumented outer loop
+            inp = {"solver": "polym_lcp_solver", "nums_actions": nums, "polymatrix": {"%d,%d" % k: v.tolist() for k, v in pm.items()},
+                   "start": list(start), "max_iter": PL_MAX, "origin": origin, "backtracks": back, "flipped_pair": flips}
+            try:
+                NE, res = polym_lcp_solver(pg, starting_player_actions=list(start), max_iter=PL_MAX, full_output=True)
+            except Exception as e:
+                ctx.case(("polym", nums, inp["polymatrix"], start), nontrivial=True)
+                ctx.count("polym_lcp_solver:exception")
+                ctx.fail("polym_exception", "polym_lcp_solver raised %r on a generic polymatrix game (the documented algorithm converges in %d pivots)"
+                         % (e, tit), inp, repr(e), tit)
+                continue
             ctx.case(("polym", nums, inp["polymatrix"], start), nontrivial=True,
                      sample={"call": {"nums": nums, "start": list(start)}, "impl": [[x.tolist() for x in NE], bool(res.converged), int(res.num_iter)]})
             ctx.count("polym_lcp_solver:N=%d:%s" % (N, "converged" if res.converged else "not-converged"))
+            ctx.count("polym_lcp_solver:runs")
+            if back: ctx.count("polym_lcp_solver:runs-that-backtrack")
+            if flips: ctx.count("polym_lcp_solver:backtrack-with-flipped-finishing-pair")
+            pl_all.append((2 if flips else 1 if back else 0, nums, start, pm, NE, res))
             if not res.converged:
-                ctx.fail("polym_no_convergence", "polym_lcp_solver did not converge on a generic polymatrix game", inp, int(res.num_iter), None)
+                ctx.fail("polym_no_convergence", "polym_lcp_solver did not converge within %d pivots on a generic polymatrix game "
+                         "(the instrumented run of the documented algorithm needs %d, converged=%s)" % (PL_MAX, tit, tconv), inp, int(res.num_iter), tit)
                 continue
             prof = [[F(x) for x in a] for a in NE]
             if not all(all(x >= -Fraction(1, 10**9) for x in a) and abs(sum(a) - 1) <= Fraction(1, 10**9) for a in prof):
@@ -437,6 +504,21 @@ def run(ctx):
             if worst > Fraction(1, 10**8):
                 ctx.fail("polym_not_nash", "converged=True but the profile is not a Nash equilibrium of the polymatrix game (1e-8)", inp,
                          {"NE": [x.tolist() for x in NE], "max_gain": float(worst)}, None)
+    # model correspondence: every run with a flipped finishing pair, then back-tracking runs, then plain runs
+    caps = {2: 400 if thorough else 90, 1: 1200 if thorough else 110, 0: 600 if thorough else 50}
+    pl_cases, pl_meta = [], []
+    for cls, nums, start, pm, NE, res in pl_all:
+        if caps[cls] <= 0:
+            continue
+        caps[cls] -= 1
+        N = len(nums)
+        pms = "[" + "; ".join("[" + "; ".join(("(@nil (list float))" if i == j else flist2(pm[(i, j)].tolist())) for j in range(N)) + "]"
+                              for i in range(N)) + "]"
+        pl_cases.append(tup(natlist(nums), natlist(start), pms, zl(PL_MAX),
+                            tup(zl(0), flist([float(v) for a_ in NE for v in a_]), blit(bool(res.converged)), zl(int(res.num_iter)))))
+        pl_meta.append(({"solver": "polym_lcp_solver", "nums_actions": nums, "polymatrix": {"%d,%d" % k: v.tolist() for k, v in pm.items()},
+                         "start": list(start), "max_iter": PL_MAX}, ([x.tolist() for x in NE], bool(res.converged), int(res.num_iter))))
+        ctx.count("polym_lcp_solver:coq-case:%s" % ["plain", "backtracking", "flipped-pair"][cls])
 
     ok = ("fun c => let '(nums, starts, pms, mi, e) := c in "
           "ig_eqb (match polym_lcp_solver piv_TOL_PIV_f piv_TOL_RATIO_DIFF_f nums starts pms 2%float mi with "
@@ -474,7 +556,7 @@ def replay(data):
             from quantecon.game_theory import PolymatrixGame, polym_lcp_solver
             pm = {tuple(int(t) for t in k.split(",")): np.array(v) for k, v in inp["polymatrix"].items()}
             pg = PolymatrixGame(pm)
-            NE, res = polym_lcp_solver(pg, starting_player_actions=inp["start"], max_iter=20000, full_output=True)
+            NE, res = polym_lcp_solver(pg, starting_player_actions=inp["start"], max_iter=inp.get("max_iter", 20000), full_output=True)
             print("implementation now:", [x.tolist() for x in NE], "converged:", res.converged,
                   "library is_nash:", pg.to_nfg().is_nash(NE))
     except Exception as e:
